@@ -86,3 +86,40 @@ def job_le64(ses):
     report(ses, res, 'PreAuthenticationEncoding::le64 == u64::to_le_bytes for all 2^64 inputs', 'PAE length prefix le64 is not the 8-byte little-endian encoding the specification requires',
            replay_recipe={'kind': 'spec_local', 'proto': 'v4.local', 'fkind': 'some', 'akind': 'some', 'model': {'key': '07' * 32, 'nonce': '09' * 32, 'message': '6d', 'footer': '66', 'assertion': '69'}})
     ses.bounds['kani k1_le64'] = 'all u64 values, unwind 9'
+
+
+# ----------------------------------------------------------------------------- K5: CustomClaim constructors over every UTF-8 key of <= 4 bytes
+K5 = '''
+use crate::generic::claims::CustomClaim;
+use core::convert::TryFrom;
+
+fn reserved(k: &str) -> bool { matches!(k, "iss" | "sub" | "aud" | "exp" | "nbf" | "iat" | "jti") }
+
+macro_rules! k5 {
+    ($name:ident, $n:expr) => {
+        #[kani::proof]
+        #[kani::unwind(9)]
+        fn $name() {
+            let bytes: [u8; $n] = kani::any();
+            let k = match core::str::from_utf8(&bytes) { Ok(s) => s, Err(_) => return };
+            let a = CustomClaim::<u8>::try_from((k, 7u8)).is_err();
+            assert!(a == reserved(k), "tuple(&str, T) form: Err iff reserved");
+            let b = CustomClaim::<&str>::try_from(k).is_err();
+            assert!(b == reserved(k), "key-only form: Err iff reserved");
+            kani::cover!(a, "a reserved key is reachable");
+            kani::cover!(!a, "a free key is reachable");
+        }
+    };
+}
+k5!(k5_keys_len3, 3);
+k5!(k5_keys_len4, 4);
+k5!(k5_keys_len2, 2);
+'''
+
+
+def job_custom_claim_keys(ses):
+    hs = ['generic::claims::verif_harness::k5_keys_len3', 'generic::claims::verif_harness::k5_keys_len4'] + (['generic::claims::verif_harness::k5_keys_len2'] if ses.tier == 'thorough' else [])
+    res = run_kani(K5, 'src/generic/claims/mod.rs', hs, timeout=600)
+    report(ses, res, 'CustomClaim::try_from (tuple and key-only forms) on every UTF-8 key of 2-4 bytes: Err iff the key is one of the seven reserved names',
+           'CustomClaim constructor decides the reserved-key question wrongly for some short key', replay_recipe={'kind': 'c18', 'form': 'tuple_str', 'model': {}})
+    ses.bounds['kani k5'] = 'keys of exactly 3 and 4 bytes (2 as well in thorough), all byte values, unwind 9'
